@@ -76,3 +76,48 @@ Record ctor_spec (k : kind) (num den : Z) (n : nat) (e : Z) (ds : list Z) (ended
   cs_notyet : forall j, (j < length ds)%nat -> ~ exact_at k num den e j (val (firstn j ds));
   cs_end : ended = true -> exact_at k num den e (length ds) (val ds)
 }.
+
+(* ---- boolean checker of ctor_spec, run on the implementation's observations ---- *)
+Definition trunc_ok_b (k : kind) (num den e : Z) (j : nat) (M : Z) : bool :=
+  let p := power_of k in
+  let a := p10 (p * (e - Z.of_nat j)) in
+  let b := num * p10 (p * (Z.of_nat j - e)) in
+  (pw k M * a * den <=? b) && (b <? pw k (M + 1) * a * den).
+
+Definition exact_at_b (k : kind) (num den e : Z) (j : nat) (M : Z) : bool :=
+  let p := power_of k in
+  pw k M * p10 (p * (e - Z.of_nat j)) * den =? num * p10 (p * (Z.of_nat j - e)).
+
+Fixpoint check_from (k : kind) (num den e : Z) (j : nat) (M : Z) (ds : list Z) : bool :=
+  trunc_ok_b k num den e j M &&
+  match ds with
+  | [] => true
+  | d :: r => (0 <=? d) && (d <=? 9) && negb (exact_at_b k num den e j M) && check_from k num den e (S j) (10 * M + d) r
+  end.
+
+Definition first_ok (ds : list Z) : bool := match ds with [] => true | d :: _ => 1 <=? d end.
+
+Definition ctor_check (k : kind) (num den : Z) (n : nat) (e : Z) (ds : list Z) (ended : bool) : bool :=
+  (length ds <=? n)%nat && (ended || (length ds =? n)%nat) && first_ok ds &&
+  check_from k num den e 0 0 ds &&
+  (negb ended || exact_at_b k num den e (length ds) (val ds)).
+
+(* the same checker with the two powers of ten maintained incrementally (what the extracted driver runs) *)
+Definition tp (k : kind) : Z := 10 ^ power_of k.
+
+Fixpoint check_fast (k : kind) (den e : Z) (j : nat) (M a b : Z) (ds : list Z) : bool :=
+  (* a = 10^[p(e-j)], b = num * 10^[p(j-e)] *)
+  let lhs := pw k M * a * den in
+  (lhs <=? b) && (b <? pw k (M + 1) * a * den) &&
+  match ds with
+  | [] => true
+  | d :: r =>
+    (0 <=? d) && (d <=? 9) && negb (lhs =? b) &&
+    (if Z.of_nat j <? e then check_fast k den e (S j) (10 * M + d) (a / tp k) b r
+     else check_fast k den e (S j) (10 * M + d) a (b * tp k) r)
+  end.
+
+Definition ctor_check_fast (k : kind) (num den : Z) (n : nat) (e : Z) (ds : list Z) (ended : bool) : bool :=
+  (length ds <=? n)%nat && (ended || (length ds =? n)%nat) && first_ok ds &&
+  check_fast k den e 0 0 (p10 (power_of k * e)) (num * p10 (power_of k * (- e))) ds &&
+  (negb ended || exact_at_b k num den e (length ds) (val ds)).
